@@ -1,4 +1,4 @@
-import RV.C03.CodecLemmas
+import RV.C03.ChainLemmas
 /-
   C03 — the long (`"""`) branch of `Literal._quote_encode`:
   the replace chain + final-quote rule equals a one-pass encoder `encG true true`, which the W3C
@@ -434,41 +434,5 @@ theorem turtle_long_roundtrip (s : Str) (hlf : lf ∈ s) : decodeTurtle (quoteEn
   unfold decodeTurtle
   simp only [List.cons_append, List.nil_append, and_self, if_true]
   exact long_decode s
-
-theorem decodeTurtle_short (B : Str) (h : ¬ ∃ r, B = dq :: dq :: r) :
-    decodeTurtle (dq :: B) = decShortBody dq B := by
-  match B with
-  | [] => simp [decodeTurtle]
-  | [b] => simp [decodeTurtle]
-  | b :: c :: r =>
-    have : ¬ (dq = dq ∧ b = dq ∧ c = dq) := by
-      rintro ⟨_, rfl, rfl⟩; exact h ⟨r, rfl⟩
-    have h2 : ¬ (dq = sq ∧ b = sq ∧ c = sq) := by
-      rintro ⟨h', _⟩; exact absurd h' (by decide)
-    have this' : ¬ (b = dq ∧ c = dq) := fun h' => this ⟨rfl, h'⟩
-    simp [decodeTurtle, this', show ¬ (dq = sq) from by decide]
-
-theorem tEsc_head (x : Char) : ∃ y r, tEsc x = y :: r ∧ y ≠ dq := by
-  by_cases h1 : x = bs
-  · subst h1; exact ⟨bs, [bs], by decide, by decide⟩
-  by_cases h3 : x = dq
-  · subst h3; exact ⟨bs, [dq], by decide, by decide⟩
-  by_cases h4 : x = cr
-  · subst h4; exact ⟨bs, ['r'], by decide, by decide⟩
-  · exact ⟨x, [], tEsc_other h1 h3 h4, h3⟩
-
-theorem turtle_short_roundtrip (s : Str) (hlf : lf ∉ s) : decodeTurtle (quoteEncode s) = some s := by
-  unfold quoteEncode
-  simp only [hlf, if_false]
-  rw [shortChain_fused s hlf, List.cons_append, decodeTurtle_short]
-  · exact turtle_short_body_roundtrip s hlf
-  · rintro ⟨r, hr⟩
-    match s with
-    | [] => simp at hr
-    | x :: t =>
-      obtain ⟨y, r', hy, hne⟩ := tEsc_head x
-      rw [List.flatMap_cons, hy] at hr
-      simp at hr
-      exact hne hr.1
 
 end RV.C03
